@@ -2,6 +2,7 @@
 //! (C43) and the consensus manager's clock (C44).
 
 pub mod c43;
+pub mod c43e;
 pub mod c44;
 
 pub fn checks() -> Vec<vf_core::Check> {
